@@ -156,7 +156,11 @@ class RealRouter:
             elif k == 'remove_method':
                 rt = self.router.routes.get(l2s(op['pat']))
                 if rt is not None:
-                    rt.remove_method(op['meth'])
+                    ep = rt.methods.get(op['meth'])
+                    if ep is not None and self.rng.random() < 0.5:
+                        ep.remove()              # RouteMethod.remove(): per-method removal through the end-point object
+                    else:
+                        rt.remove_method(op['meth'])
             elif k == 'add_hook':
                 r = op['r']
                 self.router.add_hook(self.text(r, op.get('flavour')), self.hook(r['pat']))
